@@ -66,12 +66,11 @@ EthConsistent(tx) ==
   /\ tx.f.Target = "pay" /\ tx.f.Nonce = "pay" /\ tx.f.Data = "pay" /\ tx.f.Hash = "pay"
   /\ WrapChain(tx) = PayChain(tx.pay)
 AcceptEth(tx, h) == EthConsistent(tx) /\ tx.pay.prot = ChainOf(h)     \* EIP-155, this chain
-(* what the code does (transaction_signing.go: EIP155Signer.Sender falls back to
-   HomesteadSigner for unprotected payloads): a named deviation, never the oracle *)
-AcceptEthAsCoded(tx, h) == EthConsistent(tx) /\ tx.pay.prot \in {ChainOf(h), "none"}
+(* Until fix 873a258 the code admitted unprotected payloads wrapped with ChainId "0"
+   (EIP155Signer.Sender falls back to HomesteadSigner); the as-coded alternative was
+   deleted with the repair, the reference above never changed. *)
 
 Accept(tx, h) == IF tx.kind = "native" THEN AcceptNative(tx, h) ELSE AcceptEth(tx, h)
-AcceptAsCoded(tx, h) == IF tx.kind = "native" THEN AcceptNative(tx, h) ELSE AcceptEthAsCoded(tx, h)
 
 (* ------------------------------------------------------ honest transactions *)
 NoBit == [field |-> "", bit |-> 0]
